@@ -121,7 +121,10 @@ def collect(prop, repo, scratch, tier, only=None):
     # one shared build, then one cbmc job per harness
     env = dict(os.environ, CARGO_NET_OFFLINE='true')
     t0 = time.time()
-    b = subprocess.run(['cargo', 'kani', '-Z', 'stubbing', '--only-codegen'], cwd=prepared, capture_output=True, text=True, env=env)
+    if todo:
+        b = subprocess.run(['cargo', 'kani', '-Z', 'stubbing', '--only-codegen'], cwd=prepared, capture_output=True, text=True, env=env)
+    else:
+        b = subprocess.CompletedProcess([], 0, '', '')
     meta['codegen_s'] = round(time.time() - t0, 1)
     if b.returncode != 0:
         o = Obl('%s.K.build' % prop, 'kani', 'kani/cbmc', [prop])
